@@ -54,11 +54,34 @@ def build_harness():
 
 
 def theorem_names(prop):
-    path = os.path.join(LEAN, "JominiModel", "Props", prop + ".lean")
+    """Fully qualified names of the property's theorems: every `theorem` in Props/<id>.lean,
+    plus every `theorem <id>_…` in the files listed under meta `theorem_files` (aggregate
+    properties re-use theorems proved in other slices' Proofs files)."""
+    files = [(os.path.join("Props", prop + ".lean"), None)]
+    for f in PROPS.get(prop, {}).get("theorem_files", []):
+        files.append((f, prop + "_"))
     names = []
-    if os.path.exists(path):
+    for rel, prefix in files:
+        path = os.path.join(LEAN, "JominiModel", rel)
+        if not os.path.exists(path):
+            continue
         txt = strip_comments(open(path).read())
-        names = re.findall(r"^\s*theorem\s+([A-Za-z0-9_'.]+)", txt, re.M)
+        ns = []
+        for line in txt.split("\n"):
+            m = re.match(r"\s*namespace\s+([A-Za-z0-9_.']+)", line)
+            if m:
+                ns.append(m.group(1)); continue
+            m = re.match(r"\s*end\s+([A-Za-z0-9_.']+)\s*$", line)
+            if m and ns and ns[-1] == m.group(1):
+                ns.pop(); continue
+            m = re.match(r"\s*(?:@\[[^\]]*\]\s*)*(?:private\s+|protected\s+)?theorem\s+([A-Za-z0-9_'.]+)", line)
+            if m:
+                short = m.group(1)
+                if prefix and not short.split(".")[-1].startswith(prefix):
+                    continue
+                full = ".".join(ns + [short])
+                if full not in names:
+                    names.append(full)
     return names
 
 
@@ -122,7 +145,7 @@ def proofs(prop, thorough):
         os.makedirs(audit_dir, exist_ok=True)
         audit = os.path.join(audit_dir, prop + ".lean")
         with open(audit, "w") as f:
-            f.write(f"import {mod}\nopen Jomini.Props.{prop}\n")
+            f.write(f"import {mod}\n")
             for n in names:
                 f.write(f"#print axioms {n}\n")
         rc, out = sh(["lake", "env", "lean", audit], cwd=LEAN, timeout=1800)
@@ -143,7 +166,7 @@ def proofs(prop, thorough):
     for m in re.finditer(r"'([^']+)' does not depend on any axioms", out):
         seen[m.group(1)] = []
     for n in names:
-        full = [k for k in seen if k == n or k.endswith("." + n)]
+        full = [k for k in seen if k == n or k.endswith("." + n) or n.endswith("." + k)]
         if not full:
             res["ok"] = False
             res["failures"].append(f"audit: no axiom report for {n}")
